@@ -139,9 +139,9 @@ namespace {
    }
 
    // ================================= Pass B: histories =========================================================
-   enum Op { Farm, Tree, Ident, Literal, Symbol, Enumerator, Parameter, Base, Handler, ModuleUnit, PragmaToken, CaptureOp, Designator, ScopeMember, Redeclare,
+   enum Op { Farm, Tree, Ident, Literal, Symbol, Label, Enumerator, Parameter, Base, Handler, ModuleUnit, PragmaToken, CaptureOp, Designator, ScopeMember, Redeclare,
              ExprListMember, WarehouseProduct, Subregion, ClassField, BlockStmt, BindingId, NOPS };
-   const char* op_name[] = { "make_plus", "get_pointer", "get_identifier", "get_literal", "get_symbol", "enum.add_member", "mapping.param", "class.declare_base", "block.new_handler",
+   const char* op_name[] = { "make_plus", "get_pointer", "get_identifier", "get_literal", "get_symbol", "get_label", "enum.add_member", "mapping.param", "class.declare_base", "block.new_handler",
                              "module.make_unit", "pragma.tokens.push_back", "closure.captures.push_back", "using.seq.push_back", "region.declare_var(fresh)", "region.declare_var(x,int) again",
                              "expr_list.push_back", "get_product(warehouse);destroy+scribble", "make_subregion+declare", "class.declare_field", "block.add_stmt", "structured_binding.ids.push_back" };
 
@@ -271,6 +271,7 @@ namespace {
          case Ident: { auto& i = lex.get_identifier(word(u8"id")); add_node("id" + tag, i, false); add_node("id" + tag + ".string", i.string(), false); break; }
          case Literal: { auto& l = lex.get_literal(counter % 2 ? lex.int_type() : lex.char_type(), counter % 3 ? u8"7" : u8"8"); add_node("lit" + tag, l, false); break; }
          case Symbol: { auto& s = lex.get_symbol(lex.get_identifier(u8"sym"), counter % 2 ? lex.int_type() : counter % 4 ? lex.char_type() : lex.double_type()); add_node("sym" + tag, s, false); break; }
+         case Label: { auto& s = lex.get_label(lex.get_identifier(counter % 3 ? u8"sym" : u8"other")); add_node("label" + tag, s, false); break; }
          case Enumerator: { auto* m = E->add_member(lex.get_identifier(word(u8"e"))); must_be_fresh(*m, op_name[op]); model_enum.push_back(m); add_node("enumerator" + tag, *m, true); dirty = { "E" }; break; }
          case Parameter: { auto* p = M->param(lex.get_identifier(word(u8"p")), lex.int_type()); must_be_fresh(*p, op_name[op]); model_param.push_back(p); add_node("param" + tag, *p, true); dirty = { "M", "M.parameters" }; break; }
          case Base: { auto* b = C->declare_base(counter % 2 ? lex.int_type() : lex.char_type()); must_be_fresh(*b, op_name[op]); model_base.push_back(b); add_node("base" + tag, *b, true); dirty = { "C" }; break; }
@@ -549,7 +550,7 @@ int main(int argc, char** argv)
    const int rots = asan ? (deep ? 4 : 2) : (deep ? 12 : 4);
    for (int r = 0; r < rots; ++r) if (opt.mine(job++)) zoo_pass(r, 11);
    // Pass C
-   const int member_ops[] = { Enumerator, Parameter, Base, Handler, ModuleUnit, PragmaToken, CaptureOp, Designator, ScopeMember, Redeclare, ExprListMember, ClassField, BlockStmt, BindingId, Farm, Symbol, Subregion };
+   const int member_ops[] = { Label, Enumerator, Parameter, Base, Handler, ModuleUnit, PragmaToken, CaptureOp, Designator, ScopeMember, Redeclare, ExprListMember, ClassField, BlockStmt, BindingId, Farm, Symbol, Subregion };
    const int K = asan ? (deep ? 1100 : 300) : (deep ? 5000 : 1100);
    for (int mo : member_ops) if (opt.mine(job++)) growth(mo, K);
    if (opt.mine(job++)) pool_and_tree_growth(asan ? 20000 : 70000, asan ? (deep ? 20000 : 5000) : (deep ? 100000 : 20000));
